@@ -55,7 +55,7 @@ func c02One(c *bx.Ctx, v ref.V) {
 	cls := shapeClass(v.P)
 	want := quantise(v.P)
 	rp := func(entry, exp, obs string) bx.Replay {
-		return bx.Replay{Entry: entry, Value: valueString(v), Expected: exp, Observed: obs}
+		return bx.Replay{Entry: entry, Value: valueString(v), ValueGob: valueGob(v), Expected: exp, Observed: obs}
 	}
 	b, err, pan := safeMarshal(v.P)
 	c.T(1)
